@@ -556,6 +556,8 @@ def check_C01(sc, v, tier, seed, replay):
                 "big_amf_id": i % 3 == 0,                         # an AMF-UE-NGAP-ID that needs five octets
                 "free_msin": i % 2 == 0,                          # subscriber blocks that cross a multiple of 10^4
                 "lead0": i % 3 == 1}                              # K / OP / OPc whose text begins with zero digits
+        if i % 2 == 1:
+            opts["mnc"] = ["410", "070", "260", "100"][(i // 2 + seed) % 4]    # a three-digit MNC whose last digit is 0 (310/410, 722/070, ...)
         scn, text = online.make_scenario(rnd, counts, opts=opts)
         jobs.append(("reg%02d" % i, scn, text))
     runs = online.run_many(sc, emu, jobs, parallel=8)
